@@ -566,3 +566,71 @@ func applyAddCategory(doc *JV, i, j int64) bool {
 	ts.A = append(ts.A, &JV{K: 'o', M: []JM{{"cat", JStr(c.Cat)}, {"rate", JStr(c.Rate)}}})
 	return true
 }
+
+var (
+	idKeyMu    sync.Mutex
+	idKeyCache = map[string][]string{}
+)
+
+// identityKeys: the identity keys a regime publishes (data/regimes/<cc>.json, "identities").
+func identityKeys(regime string) []string {
+	idKeyMu.Lock()
+	defer idKeyMu.Unlock()
+	if k, ok := idKeyCache[regime]; ok {
+		return k
+	}
+	var out []string
+	var reg struct {
+		Identities []struct {
+			Key string `json:"key"`
+		} `json:"identities"`
+	}
+	if b, err := os.ReadFile(filepath.Join(pubRepo, "data/regimes", strings.ToLower(regime)+".json")); err == nil && json.Unmarshal(b, &reg) == nil {
+		for _, k := range reg.Identities {
+			if k.Key != "" {
+				out = append(out, k.Key)
+			}
+		}
+	}
+	idKeyCache[regime] = out
+	return out
+}
+
+// applyIDCodes gives a party identities with the keys its regime publishes and
+// codes written the way people write them: digits of several lengths, plain or
+// grouped, and letter-digit mixes. A normaliser has to bring each of them to
+// its final form in one pass.
+func applyIDCodes(doc *JV, i, j int64) bool {
+	keys := identityKeys(docRegime(doc))
+	if len(keys) == 0 {
+		return false
+	}
+	who := []string{"supplier", "customer"}[int(i)%2]
+	pty := doc.Get(who)
+	if pty == nil || pty.K != 'o' {
+		return false
+	}
+	r := RNG(i, j, 77)
+	var ids []*JV
+	for n := 0; n < 3; n++ {
+		l := 8 + r.IntN(9)
+		var b strings.Builder
+		alnum := r.IntN(5) == 0
+		for k := 0; k < l; k++ {
+			switch {
+			case alnum && r.IntN(2) == 0:
+				b.WriteByte(byte('A' + r.IntN(26)))
+			case r.IntN(3) == 0:
+				b.WriteByte('0')
+			default:
+				b.WriteByte(byte('0' + r.IntN(10)))
+			}
+			if sep := r.IntN(12); sep < 3 && k > 0 && k < l-1 {
+				b.WriteString([]string{"/", " ", "-"}[sep])
+			}
+		}
+		ids = append(ids, &JV{K: 'o', M: []JM{{"key", JStr(keys[r.IntN(len(keys))])}, {"code", JStr(b.String())}}})
+	}
+	pty.Set("identities", &JV{K: 'a', A: ids})
+	return true
+}
